@@ -1,15 +1,21 @@
 """C19 -- filter_hypergraph keeps exactly what the criteria say; get_svh p-values and
 validated set follow their definitions.
 
-filter_*  : a container (Hypergraph / TemporalHypergraph / MultiplexHypergraph) is built
-            through the public API from the abstract content of the case (nodes with
-            metadata, records = node set [+ time | layer] with weight and metadata), the
-            filter is applied and the complete public listing of the result (nodes with
-            metadata, records with weight and metadata, incident records per node) is
-            compared with what the criteria say, computed on the abstract content.
+filter_*  : a container (Hypergraph / TemporalHypergraph / MultiplexHypergraph, and a
+            DirectedHypergraph with keep_edges=False) is built through the public API from
+            the abstract content of the case (nodes with metadata, records = node set
+            [+ time | layer | source/target split] with weight and metadata), taken through
+            content-preserving history detours (common.with_history), given incidence
+            metadata on a few (record, node) pairs, the filter is applied and the complete
+            public listing of the result (nodes with metadata, records with weight and
+            metadata, incident records per node, incidence metadata of untouched survivors)
+            is compared with what the criteria say, computed on the abstract content.
+            Arguments whose drawn value is the documented default are left out of half of
+            the calls.
 svh_*     : get_svh on a Hypergraph with positive integer weights (or unweighted);
             p-values against exact rational binomial sums, validated set against the
-            step-up threshold recomputed from the reported p-values.
+            step-up threshold recomputed from the reported p-values.  svh_mp: a handful of
+            mp=True calls (one process pool each) on planted single-size-class inputs.
 
 Float tolerances: p-values rtol 1e-9 (scipy's binom.sf is a regularised incomplete beta
 function of three exactly representable integers/one float product; exact value from
@@ -33,22 +39,39 @@ from ..common import with_history  # noqa: E402
 
 ASSUMPTIONS = [
     "an item matches a criteria dict iff every criterion attribute is present in its metadata "
-    "with a value in the allowed list; metadata values and allowed values are strings and small "
-    "ints (None is never an allowed value: whether a missing attribute matches an allowed None "
-    "is unspecified); an empty criteria dict matches everything, an empty allowed list nothing",
+    "with a value equal (==) to one in the allowed list; metadata values and allowed values are "
+    "strings, small ints (both 1 and '1') and lists of strings (None is never an allowed value: "
+    "whether a missing attribute matches an allowed None is unspecified); an empty criteria dict "
+    "matches everything, an empty allowed list nothing",
+    "the allowed values come as list / tuple / set / frozenset; set and frozenset only when no "
+    "allowed value and no metadata value looked up under a criterion attribute is a list "
+    "(unhashable: TypeError of Python's set, generated around)",
     "keep_edges=True: a hyperedge keeps the nodes that are not removed; hyperedges that become "
-    "equal (same node set, same time / layer) merge, weights add up in a weighted container "
-    "(documented add_edge behaviour, established by C01/C03/C04) and the merged record carries "
+    "equal (same node set, same time / layer) merge; the statement is silent on the merged "
+    "record: its weight may be the sum of any non-empty selection of the source weights (all of "
+    "them: documented add_edge accumulation; one: a source wins) and it carries "
     "the metadata of one of its sources (unspecified which: every source is accepted, and when "
     "the sources disagree about a hyperedge criterion both outcomes are accepted); a hyperedge "
     "whose nodes are all removed disappears for the temporal and multiplex classes (explicit in "
     "their remove_node), for Hypergraph an empty hyperedge () may or may not stay (unspecified, "
     "as in C01) and is ignored",
-    "an invalid mode must raise ValueError and leave the container unchanged",
-    "DirectedHypergraph is not generated (keep_edges on the directed class is outside the statement)",
-    "get_svh: positive integer weights (or unweighted), default alpha passed explicitly (the "
-    "statement does not mention alpha), mp=False in the quick tier and a few mp=True cases in the "
-    "thorough tier; labels of one universe are mutually comparable",
+    "an invalid mode must raise ValueError (documented); the state of the container after the "
+    "rejected call is not documented and not examined",
+    "DirectedHypergraph is generated with keep_edges=False only (disjoint non-empty source and "
+    "target; shrinking a directed hyperedge is outside the statement)",
+    "arguments equal to the documented default (node_criteria/edge_criteria=None, mode='keep', "
+    "keep_edges=False; get_svh max_order=10, alpha=0.01) are left out of about half of the calls",
+    "incidence metadata (Hypergraph, TemporalHypergraph, DirectedHypergraph; the multiplex class "
+    "has no setter) is set after construction with the sorted node tuple and read back with the "
+    "same arguments; it must be unchanged for surviving records that contain no removed node and "
+    "did not absorb a shrunk record; nothing is demanded for shrunk, merged or removed records",
+    "the builders go through common.with_history (content-preserving detours); the content "
+    "listed before the filter must equal the abstract content of the case",
+    "get_svh: positive integer weights (or unweighted), alpha = 0.01 passed or omitted (the "
+    "statement does not mention alpha; other values are not passed), mp always named (docstring "
+    "and signature disagree about its default); mp=False in the main clauses, mp=True in the "
+    "small svh_mp clause (and a few thorough-tier cases); labels of one universe are mutually "
+    "comparable",
     "multiple-testing threshold of a size class n = max{ i*alpha/C(n_a, n) : p_(i) < i*alpha/"
     "C(n_a, n) } over the sorted reported p-values (0 if empty), n_a = number of distinct nodes "
     "in the size-n hyperedges, alpha = 0.01; validated = p < threshold; decisions within 1e-9 "
@@ -56,8 +79,16 @@ ASSUMPTIONS = [
     "p-value tolerance rtol 1e-9 against exact rational binomial survival sums",
 ]
 
-ATTRS = ["color", "k", "role"]
-VALUES = ["red", "blue", 1, 2]
+ATTRS = ["color", "k", "role", "tags"]
+# "1"/"2" next to 1/2: an allowed value matches by equality, not by its printed form
+SCALARS = ["red", "blue", 1, 2, "1", "2"]
+# list-valued metadata is matched by a list-valued allowed entry ({"tags": [["a", "b"]]})
+LISTS = [["a", "b"], ["b", "a"], ["a"]]
+VALUES = SCALARS + LISTS
+# what the metadata of an item may hold under an attribute / what a criterion may allow for it
+META_POOL = {"color": ["red", "blue", "red", 1, "1"], "k": [1, 2, 1, "red", "1", "2"],
+             "role": VALUES, "tags": LISTS + LISTS + ["a"]}
+ALLOWED_POOL = {"color": SCALARS, "k": SCALARS, "role": VALUES, "tags": LISTS + ["a", "red"]}
 LAYERS = ["L1", "L2", "social"]
 # words that no tolerant reading (case, blanks) turns into keep/remove
 BAD_MODES = ["drop", "retain", "", None, "delete"]
@@ -72,11 +103,13 @@ def meta_st(draw):
     pool of four, so that criteria hit and miss and attributes are missing from some items."""
     m = {}
     if draw(st.integers(0, 5)) != 0:
-        m["color"] = draw(st.sampled_from(["red", "blue", "red", 1]))
+        m["color"] = draw(st.sampled_from(META_POOL["color"]))
     if draw(st.integers(0, 2)) != 0:
-        m["k"] = draw(st.sampled_from([1, 2, 1, "red"]))
+        m["k"] = draw(st.sampled_from(META_POOL["k"]))
     if draw(st.integers(0, 3)) == 0:
-        m["role"] = draw(st.sampled_from(VALUES))
+        m["role"] = draw(st.sampled_from(META_POOL["role"]))
+    if draw(st.integers(0, 3)) == 0:
+        m["tags"] = draw(st.sampled_from(META_POOL["tags"]))
     return m
 
 
@@ -85,12 +118,12 @@ def crit_st(draw):
     kind = draw(st.integers(0, 9))
     if kind == 0:
         return {}  # matches everything
-    attrs = [draw(st.sampled_from(["color", "color", "k", "k", "role"]))]
+    attrs = [draw(st.sampled_from(["color", "color", "k", "k", "role", "tags"]))]
     if kind >= 7:
         attrs.append(draw(st.sampled_from(ATTRS)))
     out = {}
     for a in attrs:
-        out[a] = draw(st.lists(st.sampled_from(VALUES), min_size=0 if kind == 1 else 1,
+        out[a] = draw(st.lists(st.sampled_from(ALLOWED_POOL[a]), min_size=0 if kind == 1 else 1,
                                max_size=3, unique_by=repr))
     return out
 
@@ -110,7 +143,7 @@ def filter_cases(draw, tier, flavour):
     n_rec = draw(st.integers(0, 10 if big else 8))
     recs, seen = [], set()
     for _ in range(n_rec):
-        size = draw(st.sampled_from([1, 2, 2, 3, 3, 4]))
+        size = draw(st.sampled_from([1, 2, 2, 3, 3, 4] if flavour != "directed" else [2, 2, 3, 3, 4]))
         src = None
         if recs and draw(st.integers(0, 3)) == 0:
             # a sub- or superset of an earlier record: shrinking one makes them merge
@@ -132,6 +165,12 @@ def filter_cases(draw, tier, flavour):
         elif flavour == "multiplex":
             r["layer"] = src["layer"] if src is not None else draw(st.sampled_from(LAYERS))
             key = (key, r["layer"])
+        elif flavour == "directed":
+            if len(ns) < 2:
+                continue
+            # source = the first `cut` nodes, target = the others (disjoint, both non-empty)
+            r["cut"] = draw(st.integers(1, len(ns) - 1))
+            key = (frozenset(ns[:r["cut"]]), frozenset(ns[r["cut"]:]))
         if key in seen:
             continue
         seen.add(key)
@@ -142,11 +181,35 @@ def filter_cases(draw, tier, flavour):
     mode = draw(st.sampled_from(["keep"] * 6 + ["remove"] * 6 + ["bad"]))
     if mode == "bad":
         mode = {"bad": draw(st.integers(0, len(BAD_MODES) - 1))}
+    # the allowed values of a criterion may come in any container; a set / frozenset only when
+    # neither an allowed value nor a metadata value looked up in it is a list (unhashable:
+    # building the set, or `value in set`, is a TypeError of Python, not of the filter)
+    container = draw(st.sampled_from(["list", "list", "tuple", "set", "frozenset"]))
+    sequence = draw(st.sampled_from(["list", "tuple"]))
+
+    def unhashable(crit, metas):
+        if crit is None:
+            return False
+        return (any(isinstance(v, list) for vals in crit.values() for v in vals)
+                or any(isinstance(m.get(a), list) for m in metas if m is not None for a in crit))
+
+    if (unhashable(node_criteria, nodes_meta)
+            or unhashable(edge_criteria, [r["meta"] for r in recs])):
+        container = sequence
+    # incidence metadata on a few (record, member node) pairs
+    inc = []
+    if recs and draw(st.integers(0, 2)) != 0:
+        for _ in range(draw(st.integers(1, 4))):
+            j = draw(st.integers(0, len(recs) - 1))
+            inc.append([j, draw(st.integers(0, len(recs[j]["ns"]) - 1)),
+                        {"role": draw(st.sampled_from(["in", "out", 3]))}])
     return {"kind": U["kind"], "labels": labels, "nodes_meta": nodes_meta, "weighted": weighted,
             "recs": recs, "node_criteria": node_criteria, "edge_criteria": edge_criteria,
-            "mode": mode, "keep_edges": draw(st.sampled_from([False, True])),
-            # the allowed values of a criterion may come in any container
-            "container": draw(st.sampled_from(["list", "list", "tuple", "set", "frozenset"]))}
+            "mode": mode,
+            "keep_edges": draw(st.sampled_from([False, True])) if flavour != "directed" else False,
+            "container": container, "inc": inc,
+            # arguments whose drawn value is the documented default are left out of the call
+            "omit_defaults": draw(st.booleans())}
 
 
 # --------------------------------------------------------------------------
@@ -156,9 +219,15 @@ def filter_cases(draw, tier, flavour):
 class Flavour:
     name = "?"
 
-    def extra(self, rec):
+    supports_incidence_metadata = True
+
+    def extra(self, rec, labels):
         """the part of the record key besides the node set"""
         return None
+
+    def edge_args(self, nodes, extra):
+        """positional arguments that name the record in set_/get_incidence_metadata"""
+        return (tuple(nodes),)
 
     def build(self, case):
         raise NotImplementedError
@@ -196,6 +265,7 @@ def _kw(case, r):
 class PlainFlavour(Flavour):
     name = "Hypergraph"
 
+    @with_history
     def build(self, case):
         from hypergraphx import Hypergraph
         h = Hypergraph(weighted=case["weighted"])
@@ -217,9 +287,13 @@ class PlainFlavour(Flavour):
 class TemporalFlavour(Flavour):
     name = "TemporalHypergraph"
 
-    def extra(self, rec):
+    def extra(self, rec, labels):
         return rec["t"]
 
+    def edge_args(self, nodes, extra):
+        return (tuple(nodes), extra)
+
+    @with_history
     def build(self, case):
         from hypergraphx import TemporalHypergraph
         h = TemporalHypergraph(weighted=case["weighted"])
@@ -242,9 +316,12 @@ class TemporalFlavour(Flavour):
 class MultiplexFlavour(Flavour):
     name = "MultiplexHypergraph"
 
-    def extra(self, rec):
+    supports_incidence_metadata = False   # MultiplexHypergraph has no set_incidence_metadata
+
+    def extra(self, rec, labels):
         return rec["layer"]
 
+    @with_history
     def build(self, case):
         from hypergraphx import MultiplexHypergraph
         h = MultiplexHypergraph(weighted=case["weighted"])
@@ -259,6 +336,48 @@ class MultiplexFlavour(Flavour):
 
     def weight(self, h, nodes, extra):
         return h.get_weight(tuple(nodes), extra)
+
+    def incident(self, h, node):
+        return [self.key_of_listed(e) for e in h.get_incident_edges(node)]
+
+
+class DirectedFlavour(Flavour):
+    """keep_edges=False only (the directed remove_node has no shrinking to speak of)."""
+    name = "DirectedHypergraph"
+
+    def extra(self, rec, labels):
+        c = rec["cut"]
+        return (frozenset(labels[i] for i in rec["ns"][:c]),
+                frozenset(labels[i] for i in rec["ns"][c:]))
+
+    @staticmethod
+    def _edge(extra):
+        return (tuple(sorted(extra[0])), tuple(sorted(extra[1])))
+
+    def edge_args(self, nodes, extra):
+        return (self._edge(extra),)
+
+    @with_history
+    def build(self, case):
+        from hypergraphx import DirectedHypergraph
+        h = DirectedHypergraph(weighted=case["weighted"])
+        _add_nodes(h, case)
+        L = case["labels"]
+        for r in case["recs"]:
+            c = r["cut"]
+            h.add_edge((tuple(L[i] for i in r["ns"][:c]), tuple(L[i] for i in r["ns"][c:])),
+                       **_kw(case, r))
+        return h
+
+    def key_of_listed(self, k):
+        src, tgt = k
+        src, tgt = cedge(src), cedge(tgt)
+        if set(src) & set(tgt):
+            raise Violation("directed hyperedge %r has a node on both sides" % (k,), key="listing")
+        return (frozenset(src) | frozenset(tgt), (frozenset(src), frozenset(tgt)))
+
+    def weight(self, h, nodes, extra):
+        return h.get_weight(self._edge(extra))
 
     def incident(self, h, node):
         return [self.key_of_listed(e) for e in h.get_incident_edges(node)]
@@ -304,7 +423,7 @@ def expected_after(case, fl):
     """Expected content after the filter, from the abstract content of the case.
 
     Returns (nodes, definite, optional, info): ``definite`` maps record key ->
-    (weight, [admissible metadata]) for records that must be present, ``optional`` the same for
+    ({admissible weights}, [admissible metadata]) for records that must be present, ``optional`` the same for
     records that may or may not be present (merged sources disagree about the hyperedge
     criterion)."""
     labels = case["labels"]
@@ -316,7 +435,7 @@ def expected_after(case, fl):
         nodes[lab] = {} if meta is None else dict(meta)
     recs = []
     for r in case["recs"]:
-        recs.append((frozenset(labels[i] for i in r["ns"]), fl.extra(r),
+        recs.append((frozenset(labels[i] for i in r["ns"]), fl.extra(r, labels),
                      r["w"] if case["weighted"] else 1, {} if r["meta"] is None else dict(r["meta"])))
     info = {"removed_nodes": 0, "merged": False, "emptied": False, "edge_dropped_by_node": 0,
             "edge_dropped_by_criteria": 0, "ambiguous": 0, "shrunk": 0}
@@ -327,6 +446,7 @@ def expected_after(case, fl):
             if (keep and not m) or (not keep and m):
                 removed.add(n)
     info["removed_nodes"] = len(removed)
+    info["removed"] = removed
     groups = {}  # key -> [weight, [metas]]
     for ns, extra, w, meta in recs:
         if ns & removed:
@@ -343,11 +463,16 @@ def expected_after(case, fl):
         key = (ns2, extra)
         if key in groups:
             info["merged"] = True
-            groups[key][0] = groups[key][0] + w if case["weighted"] else 1
+            # the statement says nothing about the weight of a record that two shrunk records
+            # merge into: the sum of any of the source weights is accepted (all of them = the
+            # documented add_edge accumulation; a single one = one source wins)
+            groups[key][0] = ({a + w for a in groups[key][0]} | groups[key][0] | {w}
+                              if case["weighted"] else {1})
             groups[key][1].append(meta)
         else:
-            groups[key] = [w, [meta]]
+            groups[key] = [{w}, [meta]]
     definite, optional = {}, {}
+    info["merged_keys"] = {key for key, (_, metas) in groups.items() if len(metas) > 1}
     for key, (w, metas) in groups.items():
         if case["edge_criteria"] is None:
             definite[key] = (w, metas)
@@ -371,32 +496,55 @@ def expected_after(case, fl):
 def _fmt_key(key):
     ns, extra = key
     t = tuple(sorted(ns))
+    if isinstance(extra, tuple):
+        return "%r->%r" % (tuple(sorted(extra[0])), tuple(sorted(extra[1])))
     return repr(t) if extra is None else "%r@%r" % (t, extra)
+
+
+def _inc_targets(fl, case):
+    """[(record key, positional edge arguments, node label, metadata)] of the case's incidence
+    metadata (a (record, node) pair drawn twice keeps its last value)."""
+    L = case["labels"]
+    out = {}
+    for j, pos, meta in case.get("inc") or []:
+        r = case["recs"][j]
+        ns = frozenset(L[i] for i in r["ns"])
+        extra = fl.extra(r, L)
+        node = L[r["ns"][pos]]
+        out[(ns, extra, node)] = ((ns, extra), fl.edge_args(sorted(ns), extra), node, meta)
+    return list(out.values())
 
 
 def check_filter(fl, case, ctx):
     from hypergraphx.filters import filter_hypergraph
     h = fl.build(case)
+    inc = _inc_targets(fl, case) if fl.supports_incidence_metadata else []
+    for _, eargs, node, meta in inc:
+        h.set_incidence_metadata(*eargs, node, dc(meta))
     before = observe(fl, h)
-    # the abstract content must be what was built (a construction problem is C01/C03/C04's
-    # business, but a silent mismatch would make this oracle blame the filter)
     mode = case["mode"]
+
     def _contain(crit):
         if crit is None:
             return None
         make = {"list": list, "tuple": tuple, "set": set, "frozenset": frozenset}[
             case.get("container", "list")]
-        out = {}
-        for attr, allowed in crit.items():
-            try:
-                out[attr] = make(dc(allowed))
-            except TypeError:      # unhashable allowed value: keep the list
-                out[attr] = dc(allowed)
-        return out
+        # (the generator never asks for a set of unhashable values)
+        return {attr: make(dc(allowed)) for attr, allowed in crit.items()}
 
     kwargs = {"node_criteria": _contain(case["node_criteria"]),
               "edge_criteria": _contain(case["edge_criteria"]),
               "keep_edges": case["keep_edges"]}
+    if isinstance(mode, str):
+        kwargs["mode"] = mode
+    if case.get("omit_defaults"):
+        # documented defaults: node_criteria=None, edge_criteria=None, mode="keep",
+        # keep_edges=False
+        for name, default in (("node_criteria", None), ("edge_criteria", None),
+                              ("mode", "keep"), ("keep_edges", False)):
+            if name in kwargs and type(kwargs[name]) is type(default) and kwargs[name] == default:
+                del kwargs[name]
+                ctx.label("default_omitted:" + name)
     ctx.label("allowed_values_as:" + case.get("container", "list"))
     ctx.label("mode=%s" % (mode if isinstance(mode, str) else "invalid"),
               "keep_edges=%s" % case["keep_edges"],
@@ -414,10 +562,7 @@ def check_filter(fl, case, ctx):
         else:
             raise Violation("filter_hypergraph(mode=%r) did not raise ValueError" % (bad,),
                             key="bad-mode")
-        after = observe(fl, h)
-        require(after == before,
-                lambda: "filter_hypergraph(mode=%r) raised but changed the %s: before %r, after %r"
-                % (bad, fl.name, before, after), key="bad-mode-changed")
+        # (what the container looks like after the rejected call is not documented)
         ctx.nontrivial(bool(case["recs"]))
         return
     exp_nodes, definite, optional, info = expected_after(case, fl)
@@ -426,9 +571,17 @@ def check_filter(fl, case, ctx):
     require(before["nodes"] == built_nodes,
             lambda: "%s built from the case lists nodes %r, expected %r"
             % (fl.name, before["nodes"], built_nodes), key="construction")
-    call = ("filter_hypergraph(<%s>, node_criteria=%r, edge_criteria=%r, mode=%r, keep_edges=%r)"
-            % (fl.name, case["node_criteria"], case["edge_criteria"], mode, case["keep_edges"]))
-    filter_hypergraph(h, mode=mode, **kwargs)
+    call = "filter_hypergraph(<%s>%s)" % (
+        fl.name, "".join(", %s=%r" % (k, case[k]) for k in
+                         ("node_criteria", "edge_criteria", "mode", "keep_edges") if k in kwargs))
+    abstract = {}
+    for r in case["recs"]:
+        abstract[(frozenset(case["labels"][i] for i in r["ns"]), fl.extra(r, case["labels"]))] = (
+            r["w"] if case["weighted"] else 1, {} if r["meta"] is None else r["meta"])
+    require(before["recs"] == abstract,
+            lambda: "%s built from the case lists hyperedges %r, expected %r"
+            % (fl.name, before["recs"], abstract), key="construction")
+    filter_hypergraph(h, **kwargs)
     after = observe(fl, h)
     # ---- nodes
     require(after["nodes"] == exp_nodes,
@@ -451,9 +604,11 @@ def check_filter(fl, case, ctx):
                sorted(map(_fmt_key, before["recs"]))), key="edges")
     for key, (w_obs, meta_obs) in got.items():
         w_exp, metas = definite[key] if key in definite else optional[key]
-        require(w_obs == w_exp,
-                lambda: "%s: weight of %s afterwards %r, expected %r"
-                % (call, _fmt_key(key), w_obs, w_exp), key="weight")
+        require(w_obs in w_exp,
+                lambda: "%s: weight of %s afterwards %r, expected %s"
+                % (call, _fmt_key(key), w_obs,
+                   repr(min(w_exp)) if len(w_exp) == 1 else "one of %r" % (sorted(w_exp),)),
+                key="weight")
         require(any(meta_obs == m for m in metas),
                 lambda: "%s: metadata of %s afterwards %r, expected %s"
                 % (call, _fmt_key(key), meta_obs,
@@ -466,7 +621,39 @@ def check_filter(fl, case, ctx):
                 % (call, n, sorted(map(_fmt_key, after["incident"][n].elements())),
                    sorted(map(_fmt_key, want.elements()))), key="incidence")
     require(after["weighted"] == case["weighted"], "is_weighted() changed", key="weighted")
+    # ---- incidence metadata of the survivors that lost no node (shrunk / merged / removed
+    # records: nothing promised)
+    n_inc = 0
+    for key, eargs, node, meta in inc:
+        if key not in got or key[0] & info["removed"] or key in info["merged_keys"]:
+            continue
+        n_inc += 1
+        try:
+            obs = h.get_incidence_metadata(*eargs, node)
+        except KeyError:
+            raise Violation("%s: get_incidence_metadata(%s, %r) of a surviving hyperedge that lost "
+                            "no node raises KeyError afterwards, was set to %r"
+                            % (call, ", ".join(map(repr, eargs)), node, meta), key="incidence-meta")
+        require(obs == meta,
+                lambda: "%s: get_incidence_metadata(%s, %r) of a surviving hyperedge that lost no "
+                        "node is %r afterwards, was set to %r"
+                % (call, ", ".join(map(repr, eargs)), node, obs, meta), key="incidence-meta")
+    if n_inc:
+        ctx.label("incidence_metadata_on_untouched_survivor")
     # ---- classification
+    for crit, metas in ((case["node_criteria"], case["nodes_meta"]),
+                        (case["edge_criteria"], [r["meta"] for r in case["recs"]])):
+        for a, vals in (crit or {}).items():
+            for m in metas:
+                if m is None or a not in m:
+                    continue
+                if m[a] not in vals and str(m[a]) in {str(v) for v in vals}:
+                    ctx.label("lookalike_value_not_allowed (1 vs '1')")
+                if isinstance(m[a], list) and m[a] in vals:
+                    ctx.label("list_valued_metadata_matches")
+                if isinstance(m[a], list) and m[a] not in vals and any(
+                        isinstance(v, list) and sorted(v) == sorted(m[a]) for v in vals):
+                    ctx.label("list_valued_metadata_other_order")
     n_nodes, n_recs = len(before["nodes"]), len(before["recs"])
     some_nodes = 0 < info["removed_nodes"] < n_nodes
     dropped = info["edge_dropped_by_node"] + info["edge_dropped_by_criteria"]
@@ -491,6 +678,7 @@ def check_filter(fl, case, ctx):
 
 
 PLAIN, TEMPORAL, MULTIPLEX = PlainFlavour(), TemporalFlavour(), MultiplexFlavour()
+DIRECTED = DirectedFlavour()
 
 
 # --------------------------------------------------------------------------
@@ -512,7 +700,8 @@ def svh_cases(draw, tier):
         for g in range(heavy):
             edges[g]["w"] = draw(st.sampled_from([2, 3]))
         return {"kind": "range", "labels": labels, "weighted": True, "edges": edges,
-                "max_order": s_, "mp": False, "planted": False, "sparse_large": True}
+                "max_order": s_, "mp": False, "planted": False, "sparse_large": True,
+                "omit_alpha": draw(st.booleans()), "omit_defaults": draw(st.booleans())}
     if draw(st.integers(0, 11)) == 0:
         # dense class of large heavy hyperedges: three overlapping groups of size s whose
         # nodes occur tens to hundreds of times, so that the product of the occurrence counts
@@ -529,7 +718,8 @@ def svh_cases(draw, tier):
         edges.append({"ns": list(range(top + s_, top + 2 * s_)), "w": draw(st.integers(1, 3))})
         return {"kind": "range", "labels": list(range(top + 2 * s_)), "weighted": True,
                 "edges": edges, "max_order": s_ + draw(st.integers(0, 1)), "mp": False,
-                "planted": False, "dense_large": True}
+                "planted": False, "dense_large": True,
+                "omit_alpha": draw(st.booleans()), "omit_defaults": draw(st.booleans())}
     U = draw(universes(min_size=4, max_size=8, kinds=("ints", "strs", "range")))
     labels = U["labels"]
     n = len(labels)
@@ -571,8 +761,9 @@ def svh_cases(draw, tier):
     # a handful per shard (Hypothesis over-samples the ends of an integer range, not its middle)
     mp = big and draw(st.integers(0, 399)) == 200
     return {"kind": U["kind"], "labels": labels, "weighted": weighted, "edges": edges,
-            "max_order": draw(st.sampled_from([2, 3, 3, 4, 4, 5, 6])), "mp": mp,
-            "planted": planted}
+            "max_order": draw(st.sampled_from([2, 3, 3, 4, 4, 5, 6, 10, 10])), "mp": mp,
+            "planted": planted,
+            "omit_alpha": draw(st.booleans()), "omit_defaults": draw(st.booleans())}
 
 
 @with_history
@@ -589,19 +780,35 @@ def build_svh(case):
     return h
 
 
+DEFAULT_MAX_ORDER = 10   # get_svh(hypergraph, max_order=10, alpha=0.01, mp=False)
+
+
+def svh_kwargs(case):
+    """Keyword arguments of the call: alpha is 0.01 or left out (the default; the statement is
+    silent on other values), max_order is left out when the drawn bound is the default."""
+    kw = {}
+    if not (case.get("omit_defaults") and case["max_order"] == DEFAULT_MAX_ORDER):
+        kw["max_order"] = case["max_order"]
+    if not case.get("omit_alpha"):
+        kw["alpha"] = 0.01
+    return kw
+
+
 def run_svh(case):
     from hypergraphx.filters import get_svh
     h = build_svh(case)
     random.seed(0)
+    kw = svh_kwargs(case)
     if not case["mp"]:
-        return get_svh(h, max_order=case["max_order"], alpha=0.01, mp=False)
+        # mp is always named: the docstring says "default: True", the signature False
+        return get_svh(h, mp=False, **kw)
     # get_svh(mp=True) creates a process pool; the engine's workers are daemonic and may
     # not have children, so the flag is lifted for the duration of the call
     proc = multiprocessing.current_process()
     was = proc._config.get("daemon")
     proc._config["daemon"] = False
     try:
-        return get_svh(h, max_order=case["max_order"], alpha=0.01, mp=True)
+        return get_svh(h, mp=True, **kw)
     finally:
         proc._config["daemon"] = was
 
@@ -653,8 +860,10 @@ def read_tables(svh, ref, case):
             key="svh-type")
     keys = sorted(int(k) for k in svh.keys())
     require(keys == sorted(ref),
-            lambda: "get_svh(max_order=%d) has tables for sizes %r, expected %r (sizes present in "
-                    "the input within [2, max_order])" % (case["max_order"], keys, sorted(ref)),
+            lambda: "get_svh(max_order=%d%s) has tables for sizes %r, expected %r (sizes present "
+                    "in the input within [2, max_order])"
+            % (case["max_order"], "" if "max_order" in svh_kwargs(case) else
+               ", the documented default, not passed", keys, sorted(ref)),
             key="svh-sizes")
     out = {}
     for k, df in svh.items():
@@ -682,6 +891,11 @@ def classify_svh(case, ref, ctx):
     ctx.label("labels:" + case["kind"], "weighted" if case["weighted"] else "unweighted",
               "max_order=%d" % case["max_order"], "mp=%s" % case["mp"],
               "planted" if case.get("planted") else "free")
+    kw = svh_kwargs(case)
+    if "alpha" not in kw:
+        ctx.label("default_omitted:alpha")
+    if "max_order" not in kw:
+        ctx.label("default_omitted:max_order")
     sizes = {len(e["ns"]) for e in case["edges"]}
     if case.get("dense_large"):
         ctx.label("dense_large (product of occurrence counts above 2**63)")
@@ -699,6 +913,11 @@ def check_svh_pvalues(case, ctx):
     ref = svh_reference(case)
     classify_svh(case, ref, ctx)
     tables = read_tables(run_svh(case), ref, case)
+    _check_pvalues(tables, ref, ctx)
+    ctx.nontrivial(any(len(r) >= 2 for r in tables.values()))
+
+
+def _check_pvalues(tables, ref, ctx):
     small = False
     for n, rows in tables.items():
         for fs, (p, _) in rows.items():
@@ -713,7 +932,6 @@ def check_svh_pvalues(case, ctx):
                 small = True
     if small:
         ctx.label("pvalue_below_1e-3")
-    ctx.nontrivial(any(len(r) >= 2 for r in tables.values()))
 
 
 def stepup_threshold(ps, n_a, n):
@@ -736,6 +954,10 @@ def check_svh_validated(case, ctx):
     ref = svh_reference(case)
     classify_svh(case, ref, ctx)
     tables = read_tables(run_svh(case), ref, case)
+    ctx.nontrivial(_check_validated(tables, ref, ctx))
+
+
+def _check_validated(tables, ref, ctx):
     mixed = False
     for n, rows in tables.items():
         ps = [p for p, _ in rows.values()]
@@ -765,7 +987,48 @@ def check_svh_validated(case, ctx):
             mixed = True
     if mixed:
         ctx.label("validated_and_not_in_one_class")
-    ctx.nontrivial(mixed)
+    return mixed
+
+
+@st.composite
+def svh_mp_cases(draw, tier):
+    """mp=True: one size class only (get_svh forks one process pool per size class), heavy
+    hyperedges with pairwise different weights on disjoint node groups plus light ones, so that
+    the p-values differ from row to row (results handed back in another order, or computed from
+    another row's parameters, show)."""
+    U = draw(universes(min_size=6, max_size=8, kinds=("ints", "strs", "range")))
+    n = len(U["labels"])
+    s_ = draw(st.sampled_from([2, 2, 3]))
+    perm = draw(st.permutations(list(range(n))))
+    heavy = draw(st.permutations([3, 5, 8, 13, 20, 30]))
+    edges, seen = [], set()
+    for g in range(n // s_):
+        ns = list(perm[g * s_:(g + 1) * s_])
+        seen.add(frozenset(ns))
+        edges.append({"ns": ns, "w": heavy[g]})
+    for _ in range(draw(st.integers(2, 6))):
+        ns = draw(st.lists(st.integers(0, n - 1), min_size=s_, max_size=s_, unique=True))
+        if frozenset(ns) not in seen:
+            seen.add(frozenset(ns))
+            edges.append({"ns": ns, "w": draw(st.sampled_from([1, 1, 2, 4]))})
+    order = draw(st.permutations(list(range(len(edges)))))
+    return {"kind": U["kind"], "labels": U["labels"], "weighted": True,
+            "edges": [edges[i] for i in order],
+            "max_order": draw(st.sampled_from([s_, 3, 4, 10])), "mp": True, "planted": True,
+            "omit_alpha": draw(st.booleans()), "omit_defaults": draw(st.booleans())}
+
+
+def check_svh_mp(case, ctx):
+    ref = svh_reference(case)
+    classify_svh(case, ref, ctx)
+    tables = read_tables(run_svh(case), ref, case)
+    _check_pvalues(tables, ref, ctx)
+    mixed = _check_validated(tables, ref, ctx)
+    exact = [pe for r in ref.values() for _, pe in r["table"].values()]
+    distinct = len(set(exact)) == len(exact)
+    if distinct:
+        ctx.label("pairwise_distinct_pvalues")
+    ctx.nontrivial(distinct and len(exact) >= 4)
 
 
 CLAUSES = [
@@ -781,9 +1044,16 @@ CLAUSES = [
            lambda case, ctx: check_filter(MULTIPLEX, case, ctx),
            quick=300, thorough=1500, shards_quick=3,
            rule="criteria remove some but not all nodes, or some but not all records"),
+    Clause("filter_directed", lambda tier: filter_cases(tier, "directed"),
+           lambda case, ctx: check_filter(DIRECTED, case, ctx),
+           quick=200, thorough=1000, shards_quick=2,
+           rule="criteria remove some but not all nodes, or some but not all hyperedges "
+                "(keep_edges=False only)"),
     Clause("svh_pvalues", svh_cases, check_svh_pvalues, quick=250, thorough=1200, shards_quick=3,
            rule="a size class in [2, max_order] with >= 2 hyperedges"),
     Clause("svh_validated", svh_cases, check_svh_validated, quick=300, thorough=1200,
            shards_quick=4,
            rule="a size class with >= 3 hyperedges, some validated and some not"),
+    Clause("svh_mp", svh_mp_cases, check_svh_mp, quick=4, thorough=6, shards_quick=1,
+           rule="mp=True, one size class of >= 4 hyperedges whose exact p-values differ pairwise"),
 ]
